@@ -1210,8 +1210,8 @@ func Run(r *ev.Run, replay string) {
 	if total > 0 {
 		pct := 100 * (total - free) / total
 		r.Count("pct_skipped", pct)
-		if pct > 35 {
-			r.Inconclusive(fmt.Sprintf("%d %% of the resolutions ended in an error (limit 35 %%)", pct))
+		if pct > 50 {
+			r.Inconclusive(fmt.Sprintf("%d %% of the resolutions ended in an error (limit 50 %%)", pct))
 		}
 	}
 	r.Gate("pct_nontrivial_of_error_free", 15)
